@@ -1,6 +1,6 @@
 /-
   C08 — property theorems, part 2: the generic `Executor` on a deferred runtime, for EVERY schedule,
-  against the `BlockingExecutor` (through the data specification `Spec/ExecSpec.lean`).
+  against the `BlockingExecutor` (through the data specification `Spec/AsyncExecSpec.lean`).
   Helper lemmas: `Lemmas/ExecEv.lean`.
 -/
 import PyGqlModel.Lemmas.ExecEv
